@@ -42,7 +42,33 @@ const ruleText = "C15: tables of 0..25 rows (ids with gaps, shuffled insertion),
 
 // ---- the model under test -------------------------------------------------------------------
 
-// Rec is the gorm model. c and d are nullable.
+// Tag is a field type with its own Scanner/Valuer: the database holds "t:" + V.
+type Tag struct{ V string }
+
+func (t Tag) Value() (driver.Value, error) { return "t:" + t.V, nil }
+
+func (t *Tag) Scan(src interface{}) error {
+	var s string
+	switch x := src.(type) {
+	case string:
+		s = x
+	case []byte:
+		s = string(x)
+	default:
+		return fmt.Errorf("Tag: cannot scan %T", src)
+	}
+	if !strings.HasPrefix(s, "t:") {
+		return fmt.Errorf("Tag: stored value %q lacks the prefix", s)
+	}
+	t.V = s[2:]
+	return nil
+}
+
+// Meta is embedded into Rec with a column prefix.
+type Meta struct{ N int }
+
+// Rec is the gorm model. c and d are nullable, k has a custom Scanner/Valuer
+// type, m_n comes from an embedded struct.
 type Rec struct {
 	ID uint `gorm:"primaryKey"`
 	A  int
@@ -50,13 +76,15 @@ type Rec struct {
 	S  string
 	C  *int
 	D  sql.NullString
+	K  Tag
+	M  Meta `gorm:"embedded;embeddedPrefix:m_"`
 }
 
 func (Rec) TableName() string { return "recs" }
 
-const ddl = "CREATE TABLE recs (id bigint NOT NULL PRIMARY KEY, a integer NOT NULL, b integer NOT NULL, s text NOT NULL, c integer, d text)"
+const ddl = "CREATE TABLE recs (id bigint NOT NULL PRIMARY KEY, a integer NOT NULL, b integer NOT NULL, s text NOT NULL, c integer, d text, k text NOT NULL, m_n integer NOT NULL)"
 
-var columns = []string{"id", "a", "b", "s", "c", "d"}
+var columns = []string{"id", "a", "b", "s", "c", "d", "k", "m_n"}
 
 // Row is the reference representation of one table row.
 type Row struct {
@@ -66,6 +94,8 @@ type Row struct {
 	S  string  `json:"s"`
 	C  *int64  `json:"c"`
 	D  *string `json:"d"`
+	K  string  `json:"k"`   // the Tag's V (the database holds "t:"+K)
+	MN int64   `json:"m_n"` // embedded Meta.N
 }
 
 func (r Row) intCol(col string) *int64 {
@@ -78,6 +108,8 @@ func (r Row) intCol(col string) *int64 {
 		return &r.B
 	case "c":
 		return r.C
+	case "m_n":
+		return &r.MN
 	}
 	panic("harness: not an int column: " + col)
 }
@@ -88,11 +120,13 @@ func (r Row) strCol(col string) *string {
 		return &r.S
 	case "d":
 		return r.D
+	case "k":
+		return &r.K
 	}
 	panic("harness: not a string column: " + col)
 }
 
-func isStrCol(col string) bool { return col == "s" || col == "d" }
+func isStrCol(col string) bool { return col == "s" || col == "d" || col == "k" }
 
 // cell renders one column value canonically ("NULL" for SQL NULL).
 func (r Row) cell(col string) string {
@@ -125,7 +159,7 @@ func rowsString(rs []Row) string {
 }
 
 func fromRec(r Rec) Row {
-	out := Row{ID: int64(r.ID), A: int64(r.A), B: r.B, S: r.S}
+	out := Row{ID: int64(r.ID), A: int64(r.A), B: r.B, S: r.S, K: r.K.V, MN: int64(r.M.N)}
 	if r.C != nil {
 		v := int64(*r.C)
 		out.C = &v
@@ -138,13 +172,23 @@ func fromRec(r Rec) Row {
 }
 
 // fromMap converts a scanned map; it reports an error for a missing column or a
-// value of an unexpected kind.
-func fromMap(m map[string]interface{}) (Row, error) {
+// value of an unexpected kind. cols (nil = all) are the columns the query selected:
+// exactly those keys must be present.
+func fromMap(m map[string]interface{}, cols map[string]bool) (Row, error) {
 	var out Row
-	if len(m) != len(columns) {
-		return out, fmt.Errorf("map has %d keys, want %d: %v", len(m), len(columns), m)
+	want := 0
+	for _, col := range columns {
+		if cols == nil || cols[col] {
+			want++
+		}
+	}
+	if len(m) != want {
+		return out, fmt.Errorf("map has %d keys, want %d: %v", len(m), want, m)
 	}
 	for _, col := range columns {
+		if cols != nil && !cols[col] {
+			continue
+		}
 		raw, ok := m[col]
 		if !ok {
 			return out, fmt.Errorf("map lacks column %q: %v", col, m)
@@ -153,41 +197,46 @@ func fromMap(m map[string]interface{}) (Row, error) {
 		if err != nil {
 			return out, fmt.Errorf("column %q: %v", col, err)
 		}
-		if isStrCol(col) {
-			switch x := v.(type) {
-			case nil:
-				if col == "s" {
-					return out, fmt.Errorf("column s is NULL")
-				}
-			case string:
-				if col == "s" {
-					out.S = x
-				} else {
-					out.D = &x
-				}
-			default:
-				return out, fmt.Errorf("column %q holds %T(%v), want text", col, raw, raw)
+		nullable := col == "c" || col == "d"
+		if v == nil {
+			if !nullable {
+				return out, fmt.Errorf("column %q is NULL", col)
 			}
 			continue
 		}
-		switch x := v.(type) {
-		case nil:
-			if col != "c" {
-				return out, fmt.Errorf("column %q is NULL", col)
+		if isStrCol(col) {
+			x, ok := v.(string)
+			if !ok {
+				return out, fmt.Errorf("column %q holds %T(%v), want text", col, raw, raw)
 			}
-		case int64:
 			switch col {
-			case "id":
-				out.ID = x
-			case "a":
-				out.A = x
-			case "b":
-				out.B = x
-			case "c":
-				out.C = &x
+			case "s":
+				out.S = x
+			case "d":
+				out.D = &x
+			case "k": // a map shows the stored form
+				if !strings.HasPrefix(x, "t:") {
+					return out, fmt.Errorf("column k holds %q, want the stored form t:...", x)
+				}
+				out.K = x[2:]
 			}
-		default:
+			continue
+		}
+		x, ok := v.(int64)
+		if !ok {
 			return out, fmt.Errorf("column %q holds %T(%v), want integer", col, raw, raw)
+		}
+		switch col {
+		case "id":
+			out.ID = x
+		case "a":
+			out.A = x
+		case "b":
+			out.B = x
+		case "c":
+			out.C = &x
+		case "m_n":
+			out.MN = x
 		}
 	}
 	return out, nil
@@ -566,6 +615,49 @@ func (s Scope) eval(r Row) bool {
 	return true
 }
 
+// selected returns the set of columns the chain reads, nil = all.
+func (c Case) selected() map[string]bool {
+	if c.ColMode == "" {
+		return nil
+	}
+	m := map[string]bool{}
+	for _, col := range c.Cols {
+		m[col] = true
+	}
+	return m
+}
+
+// mask clears the columns the chain does not read.
+func (c Case) mask(r Row) Row {
+	sel := c.selected()
+	if sel == nil {
+		return r
+	}
+	out := Row{ID: r.ID}
+	if sel["a"] {
+		out.A = r.A
+	}
+	if sel["b"] {
+		out.B = r.B
+	}
+	if sel["s"] {
+		out.S = r.S
+	}
+	if sel["c"] {
+		out.C = r.C
+	}
+	if sel["d"] {
+		out.D = r.D
+	}
+	if sel["k"] {
+		out.K = r.K
+	}
+	if sel["m_n"] {
+		out.MN = r.MN
+	}
+	return out
+}
+
 func (c Case) hasScope(kind string) bool {
 	for _, s := range c.Scopes {
 		if s.Kind == kind {
@@ -576,9 +668,39 @@ func (c Case) hasScope(kind string) bool {
 }
 
 // Call is one Limit(n) / Offset(n) call; n is never 0 (DESIGN.md §2.9).
+//
+// Kind "clause" is Clauses(clause.Limit{Limit: &N, Offset: O}) (N > 0, O >= 0): by
+// Limit.MergeClause the same as Limit(N) followed, when O > 0, by Offset(O).
 type Call struct {
-	Kind string `json:"kind"` // limit | offset
+	Kind string `json:"kind"` // limit | offset | clause
 	N    int    `json:"n"`
+	O    int    `json:"o,omitempty"`
+}
+
+func (k Call) String() string {
+	switch k.Kind {
+	case "limit":
+		return fmt.Sprintf("Limit(%d)", k.N)
+	case "offset":
+		return fmt.Sprintf("Offset(%d)", k.N)
+	}
+	return fmt.Sprintf("Clauses(clause.Limit{Limit:%d,Offset:%d})", k.N, k.O)
+}
+
+// expandCalls rewrites clause calls into the Limit/Offset calls they equal.
+func expandCalls(calls []Call) []Call {
+	var out []Call
+	for _, k := range calls {
+		if k.Kind == "clause" {
+			out = append(out, Call{Kind: "limit", N: k.N})
+			if k.O > 0 {
+				out = append(out, Call{Kind: "offset", N: k.O})
+			}
+			continue
+		}
+		out = append(out, k)
+	}
+	return out
 }
 
 // orderings: name -> reference sort keys. An ordering is total when it contains id.
@@ -588,21 +710,26 @@ type sortKey struct {
 }
 
 var orderKeys = map[string][]sortKey{
-	"none":        nil,
-	"a desc, id":  {{"a", true}, {"id", false}},
-	"a desc | id": {{"a", true}, {"id", false}}, // two Order calls
-	"id":          {{"id", false}},
-	"id desc":     {{"id", true}},
-	"pk":          {{"id", false}}, // clause.OrderByColumn on clause.PrimaryKey
-	"pk desc":     {{"id", true}},
-	"a desc":      {{"a", true}},               // partial
-	"b, a desc":   {{"b", false}, {"a", true}}, // partial
+	"none":                 nil,
+	"a desc, id":           {{"a", true}, {"id", false}},
+	"a desc | id":          {{"a", true}, {"id", false}}, // two Order calls
+	"id":                   {{"id", false}},
+	"id desc":              {{"id", true}},
+	"pk":                   {{"id", false}}, // clause.OrderByColumn on clause.PrimaryKey
+	"pk desc":              {{"id", true}},
+	"a desc":               {{"a", true}},                // partial
+	"b, a desc":            {{"b", false}, {"a", true}},  // partial
+	"a desc, id (columns)": {{"a", true}, {"id", false}}, // Order(clause.OrderBy{Columns: ...})
+	"a desc, id (expr)":    {{"a", true}, {"id", false}}, // Order(clause.OrderBy{Expression: clause.Expr{...}})
+	"(empty string)":       nil,                          // Order(""): documented no-op of the string form
+	"b | id reorder":       {{"id", false}},              // Order("b") then an OrderByColumn with Reorder: only that one counts
 	// used by the shared-base test only (not drawn by the main generator)
 	"b, id":           {{"b", false}, {"id", false}},
 	"b desc, id desc": {{"b", true}, {"id", true}},
 }
 
-var orderNames = []string{"none", "none", "a desc, id", "a desc | id", "id", "id desc", "pk", "pk desc", "a desc", "b, a desc"}
+var orderNames = []string{"none", "none", "none", "a desc, id", "a desc | id", "id", "id desc", "pk", "pk desc", "a desc", "b, a desc",
+	"a desc, id (columns)", "a desc, id (expr)", "b | id reorder", "(empty string)"}
 
 func orderUsesPKSymbol(o string) bool { return o == "pk" || o == "pk desc" }
 
@@ -613,6 +740,14 @@ func applyOrder(db *gorm.DB, o string) *gorm.DB {
 		return db
 	case "a desc | id":
 		return db.Order("a desc").Order("id")
+	case "a desc, id (columns)":
+		return db.Order(clause.OrderBy{Columns: []clause.OrderByColumn{{Column: clause.Column{Name: "a"}, Desc: true}, {Column: clause.Column{Name: "id"}}}})
+	case "a desc, id (expr)":
+		return db.Order(clause.OrderBy{Expression: clause.Expr{SQL: "a desc, id"}})
+	case "(empty string)":
+		return db.Order("")
+	case "b | id reorder":
+		return db.Order("b").Order(clause.OrderByColumn{Column: clause.Column{Name: "id"}, Reorder: true})
 	case "pk":
 		return db.Order(clause.OrderByColumn{Column: pk})
 	case "pk desc":
@@ -635,11 +770,28 @@ type Case struct {
 	Mode       string `json:"mode"` // all | batch (grid: only Find under key order and FindInBatches)
 	PtrBatch   bool   `json:"ptr_batch"`
 	Prefill    int    `json:"prefill"` // elements the []Rec destination of Find holds beforehand
+	// Cols / ColMode: the chain restricts the columns. Cols are the columns that
+	// are read (id is always among them: rows are identified by it and FindInBatches
+	// needs it for its cursor). ColMode args: Select("id", "a"), slice:
+	// Select([]string{...}), string: Select("id, a"), omit: Omit(<the other columns>).
+	Cols    []string `json:"cols,omitempty"`
+	ColMode string   `json:"col_mode,omitempty"`
+	// Distinct: Distinct() on the chain (rows are distinct anyway: id is selected).
+	Distinct bool `json:"distinct,omitempty"`
+	// Config: "" | queryfields | prepare: gorm.Config{QueryFields: true} / {PrepareStmt: true} at Open
+	Config string `json:"config,omitempty"`
+	// Handle: "" the opened handle | tx: db.Begin() | conn: inside db.Connection(func(tx)...)
+	Handle string `json:"handle,omitempty"`
+	// PresetID > 0: a struct destination whose primary key is already set (documented: it
+	// is used as an additional condition)
+	PresetID int64 `json:"preset_id,omitempty"`
+	// StopAt > 0: the FindInBatches callback returns an error in that batch (documented: stops)
+	StopAt int `json:"stop_at,omitempty"`
 	// Scopes: functions handed to Scopes(...) (they run inside the finisher).
 	Scopes []Scope `json:"scopes,omitempty"`
 	// Expr: "" | where | select: the chain carries abs(b), which SQLite cannot
 	// evaluate for the smallest 64 bit integer ("integer overflow", raised when
-	// that row is reached): Where("abs(b) >= ?", 0) / Select("id, a, abs(b) AS b, s, c, d").
+	// that row is reached): Where("abs(b) >= ?", 0) / Select("id, a, abs(b) AS b, s, c, d, k, m_n").
 	Expr string `json:"expr"`
 	// Reuse: "" | session | context: the finished chain is made reusable with
 	// Session(&gorm.Session{}) / WithContext(ctx) before any finisher is called.
@@ -655,11 +807,7 @@ func (c Case) String() string {
 	fmt.Fprintf(&b, "mode=%s table=%s chain: ", c.Mode, rowsString(c.Rows))
 	var calls []string
 	for _, k := range c.Calls {
-		if k.Kind == "limit" {
-			calls = append(calls, fmt.Sprintf("Limit(%d)", k.N))
-		} else {
-			calls = append(calls, fmt.Sprintf("Offset(%d)", k.N))
-		}
+		calls = append(calls, k.String())
 	}
 	var parts []string
 	parts = append(parts, "source:"+c.Source)
@@ -686,6 +834,24 @@ func (c Case) String() string {
 	}
 	for _, sc := range c.Scopes {
 		b.WriteString(" +" + sc.String())
+	}
+	if c.ColMode != "" {
+		fmt.Fprintf(&b, " columns(%s)=%v", c.ColMode, c.Cols)
+	}
+	if c.Distinct {
+		b.WriteString(" distinct")
+	}
+	if c.Handle != "" {
+		b.WriteString(" handle=" + c.Handle)
+	}
+	if c.Config != "" {
+		b.WriteString(" config=" + c.Config)
+	}
+	if c.PresetID > 0 {
+		fmt.Fprintf(&b, " preset-id=%d", c.PresetID)
+	}
+	if c.StopAt > 0 {
+		fmt.Fprintf(&b, " stop-at-batch=%d", c.StopAt)
 	}
 	if c.Mode == "all" {
 		fmt.Fprintf(&b, " reuse=%q continue-with=Limit(%d)", c.Reuse, c.ContLimit)
@@ -786,9 +952,9 @@ func newReference(c Case) *reference {
 	calls := c.Calls
 	for _, sc := range c.Scopes {
 		if sc.Kind == "page" { // runs after every call of the chain
-			calls = append(append([]Call(nil), calls...), Call{"limit", sc.K})
+			calls = append(append([]Call(nil), calls...), Call{Kind: "limit", N: sc.K})
 			if sc.O > 0 {
-				calls = append(calls, Call{"offset", sc.O})
+				calls = append(calls, Call{Kind: "offset", N: sc.O})
 			}
 		}
 	}
@@ -798,7 +964,7 @@ func newReference(c Case) *reference {
 		}
 	}
 	// later positive values override, negative values cancel
-	for _, k := range calls {
+	for _, k := range expandCalls(calls) {
 		switch {
 		case k.Kind == "limit" && k.N > 0:
 			if r.limit > 0 {
@@ -834,6 +1000,17 @@ func newReference(c Case) *reference {
 	})
 	r.window = window(r.sorted, r.offset, r.limit)
 	r.keyWin = window(r.matched, r.offset, r.limit)
+	if c.selected() != nil {
+		// what is delivered holds the selected columns only (filtering and sorting saw all of them)
+		for id, row := range r.byID {
+			r.byID[id] = c.mask(row)
+		}
+		for _, list := range [][]Row{r.matched, r.sorted, r.window, r.keyWin} {
+			for i := range list {
+				list[i] = c.mask(list[i])
+			}
+		}
+	}
 	return r
 }
 
@@ -921,6 +1098,7 @@ type runner struct {
 	c    Case
 	db   *testdb.DB
 	ref  *reference
+	root *gorm.DB // see rootDB
 	fail string
 	// lenient (cases whose chain carries an expression that raises a run-time
 	// error on one row): a read path may return an error instead of a result; what
@@ -956,18 +1134,46 @@ func (k *runner) chain(src string, inline bool) *gorm.DB {
 	var db *gorm.DB
 	switch src {
 	case "model":
-		db = k.db.Model(&Rec{})
+		db = k.rootDB().Model(&Rec{})
 	case "table":
-		db = k.db.Table("recs")
+		db = k.rootDB().Table("recs")
 	default:
-		db = k.db.DB
+		db = k.rootDB()
+	}
+	switch k.c.ColMode {
+	case "args":
+		rest := make([]interface{}, len(k.c.Cols)-1)
+		for i, col := range k.c.Cols[1:] {
+			rest[i] = col
+		}
+		db = db.Select(k.c.Cols[0], rest...)
+	case "slice":
+		db = db.Select(append([]string(nil), k.c.Cols...))
+	case "string":
+		db = db.Select(strings.Join(k.c.Cols, ", "))
+	case "omit":
+		sel := k.c.selected()
+		var omit []string
+		for _, col := range columns {
+			if !sel[col] {
+				omit = append(omit, col)
+			}
+		}
+		db = db.Omit(omit...)
+	}
+	if k.c.Distinct {
+		db = db.Distinct()
 	}
 	calls := func() {
 		for _, cl := range k.c.Calls {
-			if cl.Kind == "limit" {
+			switch cl.Kind {
+			case "limit":
 				db = db.Limit(cl.N)
-			} else {
+			case "offset":
 				db = db.Offset(cl.N)
+			default:
+				n := cl.N
+				db = db.Clauses(clause.Limit{Limit: &n, Offset: cl.O})
 			}
 		}
 	}
@@ -993,7 +1199,7 @@ func (k *runner) chain(src string, inline bool) *gorm.DB {
 	case "where":
 		db = db.Where("abs(b) >= ?", 0)
 	case "select":
-		db = db.Select("id, a, abs(b) AS b, s, c, d")
+		db = db.Select("id, a, abs(b) AS b, s, c, d, k, m_n")
 	}
 	db = applyOrder(db, k.c.Order)
 	if !k.c.CallsFirst {
@@ -1004,8 +1210,21 @@ func (k *runner) chain(src string, inline bool) *gorm.DB {
 		db = db.Session(&gorm.Session{})
 	case "context":
 		db = db.WithContext(context.Background())
+	case "queryfields":
+		db = db.Session(&gorm.Session{QueryFields: true})
+	case "prepare":
+		db = db.Session(&gorm.Session{PrepareStmt: true})
 	}
 	return db
+}
+
+// rootDB is the handle chains start from: the opened handle, a transaction or a
+// dedicated connection (Case.Handle).
+func (k *runner) rootDB() *gorm.DB {
+	if k.root != nil {
+		return k.root
+	}
+	return k.db.DB
 }
 
 // inlineArgs are the finder's trailing arguments when the case is inline.
@@ -1032,6 +1251,9 @@ func (k *runner) plainSrc() string {
 			return "model"
 		}
 	}
+	if k.c.ColMode == "omit" { // Omit is resolved against the model's columns
+		return "model"
+	}
 	for _, sc := range k.c.Scopes {
 		if sc.Kind == "inspect" { // a scope that looks at Model/Dest finds nothing to look at in a map or []int64
 			return "model"
@@ -1051,7 +1273,7 @@ func recsToRows(rs []Rec) []Row {
 func (k *runner) mapsToRows(path string, ms []map[string]interface{}) ([]Row, bool) {
 	out := make([]Row, len(ms))
 	for i, m := range ms {
-		r, err := fromMap(m)
+		r, err := fromMap(m, k.c.selected())
 		if err != nil {
 			k.failf("%s: row %d: %v", path, i, err)
 			return nil, false
@@ -1200,11 +1422,11 @@ func (k *runner) rowsPaths() {
 		for rows.Next() {
 			if intoMap {
 				m := map[string]interface{}{}
-				if err := k.db.ScanRows(rows, &m); err != nil {
+				if err := k.rootDB().ScanRows(rows, &m); err != nil {
 					k.failf("%s: unexpected error %v", path, err)
 					break
 				}
-				r, err := fromMap(m)
+				r, err := fromMap(m, k.c.selected())
 				if err != nil {
 					k.failf("%s: row %d: %v", path, len(got), err)
 					break
@@ -1212,7 +1434,7 @@ func (k *runner) rowsPaths() {
 				got = append(got, r)
 			} else {
 				var r Rec
-				if err := k.db.ScanRows(rows, &r); err != nil {
+				if err := k.rootDB().ScanRows(rows, &r); err != nil {
 					k.failf("%s: unexpected error %v", path, err)
 					break
 				}
@@ -1300,6 +1522,11 @@ func (k *runner) scanPaths() {
 }
 
 func (k *runner) pluckPaths() {
+	if k.c.ColMode != "" || k.c.Distinct {
+		// Pluck together with a select list / DISTINCT reads something else than "the column
+		// of every row" (one selected column replaces the plucked one, DISTINCT drops values)
+		return
+	}
 	ps := k.plainSrc()
 	check := func(col, kind string, tx *gorm.DB, got []string) {
 		path := fmt.Sprintf("Pluck(%q, &%s) via %s", col, kind, ps)
@@ -1438,6 +1665,37 @@ func (k *runner) pluckPaths() {
 		}
 		check("d", "[]*string", tx, got)
 	}
+	{ // custom Scanner element type
+		var v []Tag
+		tx := k.chain(ps, false).Pluck("k", &v)
+		got := make([]string, len(v))
+		for i, x := range v {
+			got[i] = strconv.Quote(x.V)
+		}
+		check("k", "[]Tag", tx, got)
+	}
+	{ // the same column into strings: the stored form
+		var v []string
+		tx := k.chain(ps, false).Pluck("k", &v)
+		got := make([]string, len(v))
+		for i, x := range v {
+			if !strings.HasPrefix(x, "t:") {
+				k.failf("Pluck(\"k\", &[]string): value %d is %q, want the stored form t:...", i, x)
+				return
+			}
+			got[i] = strconv.Quote(x[2:])
+		}
+		check("k", "[]string", tx, got)
+	}
+	{ // column of an embedded struct
+		var v []int
+		tx := k.chain(ps, false).Pluck("m_n", &v)
+		got := make([]string, len(v))
+		for i, x := range v {
+			got[i] = itoa(int64(x))
+		}
+		check("m_n", "[]int", tx, got)
+	}
 	{
 		var v []sql.NullString
 		tx := k.chain(ps, false).Pluck("d", &v)
@@ -1560,7 +1818,7 @@ func (k *runner) singlePaths() {
 			var got Row
 			have := false
 			if tx.Error == nil && len(m) > 0 {
-				r, err := fromMap(m)
+				r, err := fromMap(m, k.c.selected())
 				if err != nil {
 					k.failf("%s(&map): %v", f.name, err)
 					return
@@ -1579,6 +1837,9 @@ func (k *runner) singlePaths() {
 // holds (a cursor that does not advance would otherwise loop for ever and the
 // collected rows would grow without bound).
 var errRunaway = errors.New("c15: more rows delivered than the table holds")
+
+// errStop is what the batch callback returns when the case asks it to stop.
+var errStop = errors.New("c15: callback asked to stop")
 
 // batchPaths: FindInBatches against Find under primary-key order and the
 // reference. Domain: no ordering of the chain's own.
@@ -1627,6 +1888,9 @@ func (k *runner) batchPaths() {
 			sizes = append(sizes, len(dest))
 			numbers = append(numbers, batch)
 			cbAff = append(cbAff, tx.RowsAffected)
+			if k.c.StopAt > 0 && batch == k.c.StopAt {
+				return errStop
+			}
 			return nil
 		})
 	} else {
@@ -1641,10 +1905,30 @@ func (k *runner) batchPaths() {
 			sizes = append(sizes, len(dest))
 			numbers = append(numbers, batch)
 			cbAff = append(cbAff, tx.RowsAffected)
+			if k.c.StopAt > 0 && batch == k.c.StopAt {
+				return errStop
+			}
 			return nil
 		})
 	}
 	path := fmt.Sprintf("FindInBatches(batch=%d)", k.c.Batch)
+	if errors.Is(res.Error, errStop) {
+		// documented: an error returned by the callback stops further batches and is returned
+		switch {
+		case len(sizes) != k.c.StopAt:
+			k.failf("%s: the callback failed in batch %d but was invoked %d times", path, k.c.StopAt, len(sizes))
+		case len(concat) > len(want) || rowsString(concat) != rowsString(want[:len(concat)]):
+			k.failf("%s stopped in batch %d: delivered %s, not a prefix of %s", path, k.c.StopAt, rowsString(concat), rowsString(want))
+		case int(res.RowsAffected) != len(concat):
+			k.failf("%s stopped in batch %d: RowsAffected=%d but %d rows delivered", path, k.c.StopAt, res.RowsAffected, len(concat))
+		}
+		for i, s := range sizes {
+			if s > k.c.Batch || s == 0 {
+				k.failf("%s: batch %d holds %d rows", path, i+1, s)
+			}
+		}
+		return
+	}
 	if errors.Is(res.Error, errRunaway) {
 		k.failf("%s delivered more rows than the table holds (%d): batches so far %v, rows so far %s, Find under key order returns %s",
 			path, len(k.c.Rows), sizes, rowsString(concat), rowsString(want))
@@ -1704,15 +1988,15 @@ func (k *runner) continuationPaths() {
 	// scopes: running them consumes them and writes what they add into the statement the
 	// finisher returns; Count's ORDER BY bookkeeping then replaces an ordering a scope added.
 	// What a read continued from there should see is not stated anywhere: left out.
-	if k.c.hasScope("order") || k.c.hasScope("page") {
+	if k.c.hasScope("order") || k.c.hasScope("page") || k.c.ColMode != "" || k.c.Distinct {
 		return
 	}
 	ps := k.plainSrc() // Count needs Model or Table
 	extra := k.c
-	extra.Calls = append(append([]Call(nil), k.c.Calls...), Call{"limit", k.c.ContLimit})
+	extra.Calls = append(append([]Call(nil), k.c.Calls...), Call{Kind: "limit", N: k.c.ContLimit})
 	page := fmt.Sprintf("Limit(%d)", k.c.ContLimit)
 	if k.c.ContOffset > 0 {
-		extra.Calls = append(extra.Calls, Call{"offset", k.c.ContOffset})
+		extra.Calls = append(extra.Calls, Call{Kind: "offset", N: k.c.ContOffset})
 		page += fmt.Sprintf(".Offset(%d)", k.c.ContOffset)
 	}
 	pageRef := newReference(extra)
@@ -1864,6 +2148,235 @@ func (k *runner) continuationPaths() {
 	}
 }
 
+// Small is a destination with fewer fields than the model (gorm then selects only those).
+type Small struct {
+	ID uint
+	S  string
+}
+
+// extraPaths: further public ways to the same rows - Row(), reads into
+// primitive destinations (Select("id").Scan/Find into []int64, an aggregate
+// into *int64 through Scan and Row), a map passed by value, a destination
+// struct with fewer fields, a struct destination whose key is preset, and Raw
+// SQL through Scan / Rows / MapColumns.
+func (k *runner) extraPaths() {
+	ps, ss := k.plainSrc(), k.structSrc()
+	n := len(k.ref.window)
+	allCols := k.c.ColMode == ""
+
+	if allCols { // Row(): the first row of the window, sql.ErrNoRows when there is none
+		row := k.chain(ps, false).Row()
+		if row == nil {
+			k.failf("Row() via %s returned nil", ps)
+			return
+		}
+		var (
+			id, a, b, mn int64
+			s, tag       string
+			c            sql.NullInt64
+			d            sql.NullString
+		)
+		err := row.Scan(&id, &a, &b, &s, &c, &d, &tag, &mn)
+		switch {
+		case n == 0:
+			if !errors.Is(err, sql.ErrNoRows) {
+				k.failf("Row() via %s: no row in the window but Scan returned %v, want sql.ErrNoRows", ps, err)
+			}
+		case err != nil:
+			k.failf("Row() via %s: unexpected error %v", ps, err)
+		default:
+			got := Row{ID: id, A: a, B: b, S: s, K: strings.TrimPrefix(tag, "t:"), MN: mn}
+			if c.Valid {
+				got.C = &c.Int64
+			}
+			if d.Valid {
+				got.D = &d.String
+			}
+			if msg := k.ref.checkRows([]Row{got}, 1); msg != "" {
+				k.failf("Row() via %s: %s; got %v, reference window %s", ps, msg, got, rowsString(k.ref.window))
+			}
+		}
+		if k.fail != "" {
+			return
+		}
+	}
+
+	if allCols && !k.c.Distinct { // primitive destinations
+		ids := func(path string, tx *gorm.DB, v []int64) {
+			if tx.Error != nil {
+				k.failf("%s: unexpected error %v", path, tx.Error)
+				return
+			}
+			got := make([]string, len(v))
+			for i, x := range v {
+				got[i] = strconv.FormatInt(x, 10)
+			}
+			if msg := k.ref.checkValues("id", got); msg != "" {
+				k.failf("%s: %s; got %v, reference window %s", path, msg, got, rowsString(k.ref.window))
+			} else if int(tx.RowsAffected) != len(v) {
+				k.failf("%s: RowsAffected=%d but %d values returned", path, tx.RowsAffected, len(v))
+			}
+		}
+		var v1, v2 []int64
+		ids(`Select("id").Scan(&[]int64) via `+ps, k.chain(ps, false).Select("id").Scan(&v1), v1)
+		ids(`Select("id").Find(&[]int64) via `+ps, k.chain(ps, false).Select("id").Find(&v2), v2)
+		if !k.ref.windowed() {
+			var n1 int64 = -7
+			if tx := k.chain(ps, false).Select("count(*)").Scan(&n1); tx.Error != nil {
+				k.failf(`Select("count(*)").Scan(&int64): unexpected error %v`, tx.Error)
+			} else if int(n1) != len(k.ref.matched) {
+				k.failf(`Select("count(*)").Scan(&int64) via %s = %d, but Find returns %d rows`, ps, n1, len(k.ref.matched))
+			}
+			var n2 int64 = -7
+			if row := k.chain(ps, false).Select("count(*)").Row(); row == nil {
+				k.failf(`Select("count(*)").Row() returned nil`)
+			} else if err := row.Scan(&n2); err != nil {
+				k.failf(`Select("count(*)").Row().Scan: unexpected error %v`, err)
+			} else if int(n2) != len(k.ref.matched) {
+				k.failf(`Select("count(*)").Row() via %s = %d, but Find returns %d rows`, ps, n2, len(k.ref.matched))
+			}
+		}
+		if k.fail != "" {
+			return
+		}
+	}
+
+	{ // nil pointer to a slice: gorm allocates it
+		var prs *[]Rec
+		tx := k.chain(ss, false).Find(&prs)
+		var got []Row
+		if prs != nil {
+			got = recsToRows(*prs)
+		} else if tx.Error == nil {
+			k.failf("Find(&*[]Rec): the pointer is still nil")
+			return
+		}
+		k.expect("Find(&*[]Rec)", tx, got, n, true)
+		if k.fail != "" {
+			return
+		}
+	}
+	{ // a map passed by value
+		m := map[string]interface{}{}
+		tx := k.chain(ps, false).Find(m)
+		var ms []map[string]interface{}
+		if tx.RowsAffected > 0 {
+			ms = append(ms, m)
+		}
+		one := 0
+		if n > 0 {
+			one = 1
+		}
+		if got, ok := k.mapsToRows("Find(map)", ms); ok {
+			k.expect("Find(map by value) via "+ps, tx, got, one, true)
+		}
+		if k.fail != "" {
+			return
+		}
+	}
+
+	if allCols { // a destination with fewer fields: only those are read
+		var small []Small
+		tx := k.chain(ps, false).Find(&small)
+		got := make([]Row, len(small))
+		for i, x := range small {
+			t, ok := k.ref.byID[int64(x.ID)]
+			if !ok {
+				k.failf("Find(&[]Small) via %s: element %d has id %d which is not in the table", ps, i, x.ID)
+				return
+			}
+			t.S = x.S // everything but id and s is taken from the table: only those two were read
+			got[i] = t
+		}
+		k.expect("Find(&[]Small) via "+ps, tx, got, n, true)
+		if k.fail != "" {
+			return
+		}
+	}
+
+	if k.c.PresetID > 0 { // the destination's preset key is one more condition
+		extra := k.c
+		extra.Conds = append(append([]Cond(nil), k.c.Conds...), Cond{Kind: "pkint", Atoms: []Atom{{Col: "id", Op: "in", I: []int64{k.c.PresetID}}}})
+		ref := newReference(extra)
+		r := Rec{ID: uint(k.c.PresetID)}
+		tx := k.chain(ss, false).Find(&r)
+		var got []Row
+		if tx.RowsAffected > 0 {
+			got = []Row{fromRec(r)}
+		}
+		k.expectRef(ref, fmt.Sprintf("Find(&Rec{ID: %d})", k.c.PresetID), tx, got, 1, true)
+		if k.fail == "" && k.c.Order == "none" && k.ref.offset == 0 && !k.c.hasScope("page") {
+			r := Rec{ID: uint(k.c.PresetID)}
+			tx := k.chain(ss, false).First(&r)
+			path := fmt.Sprintf("First(&Rec{ID: %d})", k.c.PresetID)
+			switch {
+			case len(ref.matched) == 0:
+				if !errors.Is(tx.Error, gorm.ErrRecordNotFound) {
+					k.failf("%s: the row with that key does not match but the error is %v, want ErrRecordNotFound", path, tx.Error)
+				}
+			case tx.Error != nil:
+				k.failf("%s: unexpected error %v", path, tx.Error)
+			case fromRec(r).String() != ref.matched[0].String():
+				k.failf("%s: returned %v, want %v", path, fromRec(r), ref.matched[0])
+			}
+		}
+		if k.fail != "" {
+			return
+		}
+	}
+
+	{ // Raw SQL read through Scan, Rows and MapColumns
+		min := int64(k.c.ContOffset)
+		ref := newReference(Case{Rows: k.c.Rows, Order: "id", Conds: []Cond{{Kind: "raw", Atoms: []Atom{{Col: "a", Op: ">=", I: []int64{min}}}}}})
+		const q = "SELECT * FROM recs WHERE a >= ? ORDER BY id"
+		var rs []Rec
+		tx := k.rootDB().Raw(q, min).Scan(&rs)
+		k.expectRef(ref, "Raw(...).Scan(&[]Rec)", tx, recsToRows(rs), len(ref.window), true)
+		var ms []map[string]interface{}
+		tx = k.rootDB().Raw(q, min).Scan(&ms)
+		var got []Row
+		for i, m := range ms {
+			r, err := fromMap(m, nil)
+			if err != nil {
+				k.failf("Raw(...).Scan(&[]map): row %d: %v", i, err)
+				return
+			}
+			got = append(got, r)
+		}
+		k.expectRef(ref, "Raw(...).Scan(&[]map)", tx, got, len(ref.window), true)
+		var mapped []Rec
+		tx = k.rootDB().Raw("SELECT id, a, b, s AS label, c, d, k, m_n FROM recs WHERE a >= ? ORDER BY id", min).
+			MapColumns(map[string]string{"label": "s"}).Scan(&mapped)
+		k.expectRef(ref, "Raw(... s AS label ...).MapColumns(label->s).Scan(&[]Rec)", tx, recsToRows(mapped), len(ref.window), true)
+		if k.fail != "" {
+			return
+		}
+		rows, err := k.rootDB().Raw(q, min).Rows()
+		if err != nil {
+			k.failf("Raw(...).Rows: unexpected error %v", err)
+			return
+		}
+		got = nil
+		for rows.Next() {
+			var r Rec
+			if err := k.rootDB().ScanRows(rows, &r); err != nil {
+				k.failf("Raw(...).Rows+ScanRows: unexpected error %v", err)
+				break
+			}
+			got = append(got, fromRec(r))
+		}
+		if err := rows.Err(); err != nil {
+			k.failf("Raw(...).Rows: rows.Err %v", err)
+		}
+		rows.Close()
+		if k.fail == "" {
+			if msg := ref.checkRows(got, len(ref.window)); msg != "" {
+				k.failf("Raw(...).Rows+ScanRows: %s; got %s, reference %s", msg, rowsString(got), rowsString(ref.window))
+			}
+		}
+	}
+}
+
 // insertRows fills the table through database/sql (not through gorm).
 func insertRows(d *testdb.DB, rows []Row) error {
 	if _, err := d.SQL.Exec(ddl); err != nil {
@@ -1873,13 +2386,13 @@ func insertRows(d *testdb.DB, rows []Row) error {
 		return nil
 	}
 	var sb strings.Builder
-	sb.WriteString("INSERT INTO recs (id,a,b,s,c,d) VALUES ")
-	args := make([]interface{}, 0, 6*len(rows))
+	sb.WriteString("INSERT INTO recs (id,a,b,s,c,d,k,m_n) VALUES ")
+	args := make([]interface{}, 0, 8*len(rows))
 	for i, r := range rows {
 		if i > 0 {
 			sb.WriteByte(',')
 		}
-		sb.WriteString("(?,?,?,?,?,?)")
+		sb.WriteString("(?,?,?,?,?,?,?,?)")
 		var c, dd interface{}
 		if r.C != nil {
 			c = *r.C
@@ -1887,7 +2400,7 @@ func insertRows(d *testdb.DB, rows []Row) error {
 		if r.D != nil {
 			dd = *r.D
 		}
-		args = append(args, r.ID, r.A, r.B, r.S, c, dd)
+		args = append(args, r.ID, r.A, r.B, r.S, c, dd, "t:"+r.K, r.MN)
 	}
 	_, err := d.SQL.Exec(sb.String(), args...)
 	return err
@@ -1895,17 +2408,42 @@ func insertRows(d *testdb.DB, rows []Row) error {
 
 // checkCase evaluates one case; it returns "" or the description of the violation.
 func checkCase(c Case) (violation string, harnessErr error) {
-	d := testdb.Open(testdb.Options{})
+	var opts testdb.Options
+	switch c.Config {
+	case "queryfields":
+		opts.Config.QueryFields = true
+	case "prepare":
+		opts.Config.PrepareStmt = true
+	}
+	d := testdb.Open(opts)
 	defer d.Close()
 	if err := insertRows(d, c.Rows); err != nil {
 		return "", err
 	}
 	k := &runner{c: c, db: d, ref: newReference(c)}
+	switch c.Handle {
+	case "tx":
+		tx := d.Begin()
+		if tx.Error != nil {
+			return "", tx.Error
+		}
+		defer tx.Rollback()
+		k.root = tx
+	case "conn":
+		var msg string
+		err := d.Connection(func(tx *gorm.DB) error {
+			// the handle Connection passes in accumulates conditions; a new session on it is the documented way to start chains
+			k.root = tx.Session(&gorm.Session{NewDB: true})
+			msg = k.run()
+			return nil
+		})
+		return msg, err
+	}
 	return k.run(), nil
 }
 
 func (k *runner) run() string {
-	steps := []func(){k.findPaths, k.rowsPaths, k.scanPaths, k.pluckPaths, k.countPath, k.singlePaths, k.batchPaths, k.continuationPaths}
+	steps := []func(){k.findPaths, k.rowsPaths, k.scanPaths, k.pluckPaths, k.countPath, k.singlePaths, k.batchPaths, k.continuationPaths, k.extraPaths}
 	switch {
 	case k.c.Mode == "batch":
 		steps = []func(){k.batchPaths}
@@ -1976,6 +2514,30 @@ func classify(c Case, r *reference) (bool, []string) {
 	}
 	for _, sc := range c.Scopes {
 		cl = append(cl, "scope:"+sc.Kind)
+	}
+	for _, k := range c.Calls {
+		if k.Kind == "clause" {
+			cl = append(cl, "calls:clause.Limit")
+			break
+		}
+	}
+	if c.ColMode != "" {
+		cl = append(cl, "columns:"+c.ColMode, fmt.Sprintf("columns:%d-of-%d", len(c.Cols), len(columns)))
+	}
+	if c.Distinct {
+		cl = append(cl, "option:distinct")
+	}
+	if c.Handle != "" {
+		cl = append(cl, "handle:"+c.Handle)
+	}
+	if c.Config != "" {
+		cl = append(cl, "config:"+c.Config)
+	}
+	if c.PresetID > 0 {
+		cl = append(cl, "dest:preset-primary-key")
+	}
+	if c.StopAt > 0 && c.Order == "none" {
+		cl = append(cl, "batches:callback-error")
 	}
 	switch {
 	case r.limit < 0 && r.cancel:
@@ -2090,7 +2652,7 @@ func gridRows(n int) []Row {
 	rows := make([]Row, n)
 	for i := 0; i < n; i++ {
 		id := int64(3*i + 1 + i%2)
-		rows[i] = Row{ID: id, A: int64(i % 4), B: int64(i) - 3, S: string(rune('a' + i%5))}
+		rows[i] = Row{ID: id, A: int64(i % 4), B: int64(i) - 3, S: string(rune('a' + i%5)), K: string(rune('p' + i%3)), MN: int64(i % 7)}
 		if i%3 != 0 {
 			v := int64(i % 3)
 			rows[i].C = &v
@@ -2175,13 +2737,13 @@ func TestC15Grid(t *testing.T) {
 						PtrBatch: (size+batch+l+o)%2 == 1, CallsFirst: (l+o)%3 == 0}
 					// both call orders occur: Limit before Offset and Offset before Limit
 					if l > 0 && o > 0 && (l+o)%2 == 0 {
-						c.Calls = []Call{{"offset", o}, {"limit", l}}
+						c.Calls = []Call{{Kind: "offset", N: o}, {Kind: "limit", N: l}}
 					} else {
 						if l > 0 {
-							c.Calls = append(c.Calls, Call{"limit", l})
+							c.Calls = append(c.Calls, Call{Kind: "limit", N: l})
 						}
 						if o > 0 {
-							c.Calls = append(c.Calls, Call{"offset", o})
+							c.Calls = append(c.Calls, Call{Kind: "offset", N: o})
 						}
 					}
 					count++
@@ -2219,9 +2781,11 @@ func genRowsN(rt *rapid.T, minSize, maxSize int) []Row {
 	for i := 0; i < n; i++ {
 		id += int64(rapid.IntRange(1, 3).Draw(rt, "gap"))
 		r := Row{ID: id,
-			A: int64(rapid.IntRange(0, 4).Draw(rt, "a")),
-			B: int64(rapid.IntRange(-2, 6).Draw(rt, "b")),
-			S: rapid.SampledFrom(strPool).Draw(rt, "s")}
+			A:  int64(rapid.IntRange(0, 4).Draw(rt, "a")),
+			B:  int64(rapid.IntRange(-2, 6).Draw(rt, "b")),
+			S:  rapid.SampledFrom(strPool).Draw(rt, "s"),
+			K:  rapid.SampledFrom(dPool).Draw(rt, "k"),
+			MN: int64(rapid.IntRange(0, 5).Draw(rt, "m_n"))}
 		if rapid.IntRange(0, 3).Draw(rt, "c-null") != 0 {
 			v := int64(rapid.IntRange(0, 3).Draw(rt, "c"))
 			r.C = &v
@@ -2334,7 +2898,11 @@ func genCalls(rt *rapid.T, size int) []Call {
 	n := rapid.SampledFrom([]int{0, 1, 1, 2, 2, 3, 4}).Draw(rt, "calls")
 	out := make([]Call, n)
 	for i := range out {
-		kind := rapid.SampledFrom([]string{"limit", "offset"}).Draw(rt, "call")
+		kind := rapid.SampledFrom([]string{"limit", "offset", "limit", "offset", "clause"}).Draw(rt, "call")
+		if kind == "clause" {
+			out[i] = Call{Kind: kind, N: rapid.IntRange(1, 10).Draw(rt, "clause-limit"), O: rapid.IntRange(0, 4).Draw(rt, "clause-offset")}
+			continue
+		}
 		var v int
 		switch rapid.IntRange(0, 5).Draw(rt, "call-shape") {
 		case 0: // cancel
@@ -2374,7 +2942,7 @@ func genCase(rt *rapid.T) Case {
 	c.ArrayLen = rapid.SampledFrom([]int{0, 1, 2, 3, 5, 8, 13, 26}).Draw(rt, "array-len")
 	c.PtrBatch = rapid.Bool().Draw(rt, "ptr-batch")
 	c.Prefill = rapid.SampledFrom([]int{0, 0, 1, 3}).Draw(rt, "prefill")
-	c.Reuse = rapid.SampledFrom([]string{"", "session", "session", "context"}).Draw(rt, "reuse")
+	c.Reuse = rapid.SampledFrom([]string{"", "", "session", "session", "context", "queryfields", "prepare"}).Draw(rt, "reuse")
 	for i, n := 0, rapid.SampledFrom([]int{0, 0, 0, 1, 1, 2}).Draw(rt, "scopes"); i < n; i++ {
 		sc := Scope{Kind: rapid.SampledFrom([]string{"cond", "inspect", "inspect", "order", "order", "page"}).Draw(rt, "scope")}
 		switch sc.Kind {
@@ -2386,10 +2954,35 @@ func genCase(rt *rapid.T) Case {
 			sc.K = rapid.IntRange(1, 8).Draw(rt, "scope-limit")
 			sc.O = rapid.IntRange(0, 4).Draw(rt, "scope-offset")
 		}
+		if sc.Kind == "order" && c.Order == "a desc, id (expr)" {
+			continue // an ordering added to an OrderBy that carries an Expression: which one wins is not stated
+		}
 		if !c.hasScope(sc.Kind) {
 			c.Scopes = append(c.Scopes, sc)
 		}
 	}
+	if rapid.IntRange(0, 4).Draw(rt, "restrict-columns") == 0 {
+		c.ColMode = rapid.SampledFrom([]string{"args", "slice", "string", "omit"}).Draw(rt, "col-mode")
+		c.Cols = []string{"id"}
+		for _, col := range columns[1:] {
+			if rapid.Bool().Draw(rt, "col-"+col) {
+				c.Cols = append(c.Cols, col)
+			}
+		}
+		if c.ColMode == "omit" && len(c.Cols) == len(columns) {
+			c.Cols = c.Cols[:len(c.Cols)-1] // Omit() of nothing is no Omit
+		}
+	}
+	c.Distinct = rapid.IntRange(0, 7).Draw(rt, "distinct") == 0
+	c.Handle = rapid.SampledFrom([]string{"", "", "", "tx", "conn"}).Draw(rt, "handle")
+	c.Config = rapid.SampledFrom([]string{"", "", "", "", "queryfields", "prepare"}).Draw(rt, "config")
+	if rapid.IntRange(0, 3).Draw(rt, "preset") == 0 {
+		c.PresetID = maxID + 1
+		if len(rows) > 0 && rapid.IntRange(0, 4).Draw(rt, "preset-hit") != 0 {
+			c.PresetID = rows[rapid.IntRange(0, len(rows)-1).Draw(rt, "preset-row")].ID
+		}
+	}
+	c.StopAt = rapid.SampledFrom([]int{0, 0, 0, 1, 2, 3}).Draw(rt, "stop-at")
 	c.ContLimit = rapid.IntRange(1, 6).Draw(rt, "cont-limit")
 	c.ContOffset = rapid.IntRange(0, 4).Draw(rt, "cont-offset")
 	return c
@@ -2412,13 +3005,13 @@ func TestC15Model(t *testing.T) {
 	}
 	for _, x := range []tc{
 		{nil, -1, 0},
-		{[]Call{{"limit", 3}}, 3, 0},
-		{[]Call{{"limit", 3}, {"limit", 5}}, 5, 0},
-		{[]Call{{"limit", 3}, {"limit", -1}}, -1, 0},
-		{[]Call{{"limit", 3}, {"limit", -1}, {"limit", 2}}, 2, 0},
-		{[]Call{{"offset", 3}, {"offset", -1}}, -1, 0},
-		{[]Call{{"offset", 3}, {"limit", 2}, {"offset", 1}}, 2, 1},
-		{[]Call{{"offset", -1}, {"limit", 2}}, 2, 0},
+		{[]Call{{Kind: "limit", N: 3}}, 3, 0},
+		{[]Call{{Kind: "limit", N: 3}, {Kind: "limit", N: 5}}, 5, 0},
+		{[]Call{{Kind: "limit", N: 3}, {Kind: "limit", N: -1}}, -1, 0},
+		{[]Call{{Kind: "limit", N: 3}, {Kind: "limit", N: -1}, {Kind: "limit", N: 2}}, 2, 0},
+		{[]Call{{Kind: "offset", N: 3}, {Kind: "offset", N: -1}}, -1, 0},
+		{[]Call{{Kind: "offset", N: 3}, {Kind: "limit", N: 2}, {Kind: "offset", N: 1}}, 2, 1},
+		{[]Call{{Kind: "offset", N: -1}, {Kind: "limit", N: 2}}, 2, 0},
 	} {
 		r := newReference(Case{Calls: x.calls, Order: "none"})
 		if r.limit != x.limit || r.offset != x.offset {
